@@ -5,7 +5,7 @@
    restart changes nothing).  Concurrent cases: the executed schedule is replayed step by step
    (labels, results, final and post-restart observations); the drop-finality specification is
    evaluated on the implementation's output (nothing is present after the restart that was not
-   present before it, tuples of failed inserts are nowhere, a dropped and not re-created KG is
+   present before it - except tuples a thread deletes concurrently, see deleted_by_thread -, tuples of failed inserts are nowhere, a dropped and not re-created KG is
    gone).
    Known class 2: the history uses two different shards whose file names coincide after
    `sanitize_name` (':' and '/' -> '_'). *)
@@ -122,9 +122,18 @@ Definition conc_corr (fx : bool) (setup : list hitem) (progs : list (list kop)) 
      && same_obs (observe (restart g)) irestart.
 
 (* ---- drop finality on the implementation's output *)
-Definition obs_subset (a b : kobs) : bool :=
+(* a tuple that a thread deletes concurrently with its insertion is excused: when the delete is
+   logged before the insert but applied after it, the tuple is absent in memory and present after
+   the restart.  That is the logical-time-vs-apply-order race of C15 (known finding there); it
+   involves no drop and says nothing about C17. *)
+Definition deleted_by_thread (ops : list kop) (k rel : name) (t : N) : bool :=
+  existsb (fun o => match o with
+                    | KDel _ k' rel' ts => name_eqb k k' && name_eqb rel rel' && existsb (N.eqb t) ts
+                    | _ => false end) ops.
+Definition obs_subset (ops : list kop) (a b : kobs) : bool :=
   forallb (fun e => match lookup (fst e) b with
-                    | Some y => forallb (fun f => existsb (rfact_eqb f) (fst y)) (fst (snd e))
+                    | Some y => forallb (fun f => existsb (rfact_eqb f) (fst y)
+                                                  || deleted_by_thread ops (fst e) (fst f) (snd f)) (fst (snd e))
                     | None => false end) a.
 
 Definition res_of (id : N) (ires : list (list (N * kres))) : option kres :=
@@ -151,7 +160,7 @@ Definition conc_prop (setup : list hitem) (progs : list (list kop))
            (ires : list (list (N * kres))) (ifinal irestart : kobs) : bool :=
   let ops := concat progs in
   (* nothing is there after the restart that was not there before it *)
-  obs_subset irestart ifinal
+  obs_subset ops irestart ifinal
   (* a failed insert left nothing behind *)
   && forallb (fun o => match o with
                        | KIns id k rel ts =>
